@@ -2,17 +2,17 @@ SPECIFICATION Spec
 CONSTANTS
   MaxLogs = 3
   PageSizes = {1, 2}
-  MaxFail = 1
+  MaxFail = 2
   MaxStops = 1
   MaxResets = 1
   MaxRestarts = 1
   JoinSubscriber = FALSE
   Mutant = "none"
-  LateAccepts = FALSE
+  LateAccepts = TRUE
   RecordHist = FALSE
 INVARIANTS
-  TypeOK
-  InvBatchContiguous
-  InvPersistedLeAcked
-  InvLastLeAcked
-  InvNoGapEver
+ TypeOK
+ InvBatchContiguous
+ InvPersistedLeAcked
+ InvLastLeAcked
+ InvNoGapEver
